@@ -7,6 +7,23 @@ model's call raises, the element it was aimed at — structure, stored parent po
 identities — and hence the whole tree is returned as it was, and nothing is reported as detached.
 The excluded calls are exactly those with documented effects before a later failure, each with a
 witness below (`prefix_kept_*`).
+
+SORT (round m1).  No sort is a rejection route here.  The CODE has two raising paths for `seq.sort(key=f)`:
+the key function `f` raises (CPython computes all keys first and restores the list: a rejection — the Python
+oracle's route `sort-key`), and a COMPARISON of two keys raises / the list is modified during the sort (CPython
+leaves the list REARRANGED: not a rejection).  The MODEL's keyed sort (`Tree.lean`: `if sortGate k n then
+<stable sort; renumber> else excOut n next .unsupported`) has neither: it sorts, or it answers `.unsupported`,
+which is the model declining to say anything — not a statement about the code (`keyed_sort_only_refuses`).
+Before this round `seqAtomic` classified every `.sort (some k)` as atomic, so `rejected_seq_unchanged`
+"covered" the comparison-failure path with a vacuous instance (`e = .unsupported`) while the real List.sort
+skipped `_renumber()` there (repaired by 9873cdc).  What holds on that path is stated in
+`Proofs/C09SortFailure.lean` (`sort_failure_any_permutation_dps`) and checked on the code by
+`g1common.check_sort_failure`.
+
+`.unsupported` in general: wherever the theorems below are instantiated with `e = .unsupported` (a sequence
+without a member schema, a model path outside the modelled code) they say "the model returns its input", which is
+true and carries no information about the code; the runners answer `{"unsupported": true}` for such histories and
+the harness counts them as oracle-only.
 -/
 import Proofs.C08TreeExamples
 namespace Flatland.C08.Proofs
@@ -14,12 +31,14 @@ open Flatland.Tree Flatland.PyList Flatland.C08
 
 /-- list-protocol calls whose exceptions are rejections.  Excluded: `extend` / `+=` / `*=` (the items placed
     before the failing one stay), `set` / `set_default` (empty first), `lst[i] = <plain>` on a List with a
-    valid index (`lst[i].set(value)`: the member is set in place and may raise afterwards, KF-C09-b), a key-less
-    sort (fails inside a comparison). -/
+    valid index (`lst[i].set(value)`: the member is set in place and may raise afterwards, KF-C09-b), and EVERY
+    sort: a key-less one fails inside a comparison; a keyed one, in the model, never raises at all — it sorts or
+    the model refuses (`keyed_sort_only_refuses`) — and in the code may fail inside a comparison, which rearranges
+    the list (round m1: it used to be classified atomic, vacuously). -/
 def seqAtomic (n : Node) : SeqOp → Bool
   | .extend _ | .iadd _ | .imul _ | .set _ | .setDefault => false
   | .setitem i (.plain _) => !(n.kind = .list) || (getItem n.kids i).isNone
-  | .sort none _ => false
+  | .sort _ _ => false
   | _ => true
 
 /-- dict-protocol calls whose exceptions are rejections.  Excluded: item assignment of a key that is present (or,
@@ -35,6 +54,31 @@ def opAtomic (n : Node) : Op → Bool
   | .seq o => seqAtomic n o
   | .map o => mapAtomic n o
 
+/-- the model's keyed sort has no failure path: whenever it "raises", the exception is the marker `.unsupported`
+    (the model declines: the key is not defined on every item, or the node is no sequence) — so no theorem about
+    "a keyed sort that raises" says anything about the code's comparison-failure path -/
+theorem keyed_sort_only_refuses (n : Node) (k : SortKey) (rev : Bool) (next : Nat) (e : Exc)
+    (h : (seqStep n (.sort (some k) rev) next).out = .exc e) : e = .unsupported := by
+  unfold seqStep at h
+  split at h
+  · simp [excOut] at h; exact h.symm
+  · dsimp only at h
+    split at h
+    · simp at h
+    · simp [excOut] at h; exact h.symm
+
+/-- and when it does not refuse it returns normally: the stably sorted items, renumbered on a List -/
+theorem keyed_sort_sorts (n : Node) (m : Schema) (k : SortKey) (rev : Bool) (next : Nat)
+    (hm : n.sch.member = some m) (hg : sortGate k n = true) :
+    seqStep n (.sort (some k) rev) next =
+      ⟨n.withKids (if n.kind = .list then renumber (sortBy (sortLe k rev) n.kids) else sortBy (sortLe k rev) n.kids),
+       next, .ok, []⟩ := by
+  unfold seqStep
+  simp only [hm, hg, if_true]
+
+/-- **rejected_seq_unchanged.**  A list-protocol call of the model on a rejection route (`seqAtomic`: no sort is
+    one) that raises returns the node unchanged.  For `e = .unsupported` this is the model returning its input
+    when it declines — not a claim about the code. -/
 theorem rejected_seq_unchanged (n : Node) (op : SeqOp) (next : Nat) (e : Exc)
     (hat : seqAtomic n op = true) (h : (seqStep n op next).out = .exc e) :
     (seqStep n op next).node = n ∧ (seqStep n op next).detached = [] := by
